@@ -1,14 +1,15 @@
 (* Extraction of the executable models to OCaml (for the correspondence checks).
    Directives in force: ExtrOcamlBasic (bool, option, unit, list, prod, sumbool ->
-   OCaml natives), ExtrOcamlNativeString-free (strings stay Coq strings),
+   OCaml natives), ExtrOcamlString (ascii -> char, string -> char list),
    ExtrOCamlFloats (PrimFloat -> Float64 of coq-core.kernel),
    ExtrOCamlInt63 (Uint63 -> Uint63 of coq-core.kernel). Z, positive, nat stay
    the extracted inductive datatypes. *)
-Require Import ExtrOcamlBasic ExtrOCamlFloats ExtrOCamlInt63.
-From SV Require Import Cxx Ops RngGen.
+Require Import ExtrOcamlBasic ExtrOcamlString ExtrOCamlFloats ExtrOCamlInt63.
+From SV Require Import Cxx Ops RngGen SortKey SortGen SortModel.
 
 Definition rng_real_f (s : Z) := random_real OpsFloat s.
 Definition rng_complex_f (s : Z) := random_complex OpsFloat s.
 
 Extraction Language OCaml.
-Extraction "model.ml" next_long_rand seed_norm rng_real_f rng_complex_f.
+Extraction "model.ml" next_long_rand seed_norm rng_real_f rng_complex_f
+  valid_argsort valid_gen_sort argsort_dispatch gen_select_dispatch gen_sort_dispatch herm_sort_check.
